@@ -53,26 +53,6 @@ type Case struct {
 	FirstNodeId uint64 `json:"firstNodeId,omitempty"`
 }
 
-// renamed returns the case as it runs: with the property names of c.Rename.
-func (c Case) renamed() Case {
-	if len(c.Rename) == 0 {
-		return c
-	}
-	r := c.Rename
-	c.Schema = r.Schema(c.Schema)
-	c.Prefix = r.Steps(c.Prefix)
-	c.Writer = r.Steps(c.Writer)
-	searchers := make([][]models.Query, len(c.Searchers))
-	for i, qs := range c.Searchers {
-		for _, q := range qs {
-			searchers[i] = append(searchers[i], r.Query(q))
-		}
-	}
-	c.Searchers = searchers
-	c.Rename = nil
-	return c
-}
-
 func genCase(t *rapid.T) Case {
 	so := gen.SchemaOpts{Filters: true, MinProps: 1, Flat: rapid.Bool().Draw(t, "flat"), Vamana: rapid.IntRange(0, 3).Draw(t, "vamana") > 0, Text: rapid.Bool().Draw(t, "text"), MaxDim: 3,
 		Quantizer: rapid.IntRange(0, 3).Draw(t, "quant") == 0}
@@ -257,7 +237,6 @@ func execCase(c Case) (res vt.Result) {
 	rec := vt.R()
 	if len(c.Rename) > 0 {
 		rec.Count("cases_with_renamed_properties", 1)
-		c = c.renamed()
 	}
 	dir, cleanup := drive.CaseDir()
 	defer cleanup()
@@ -269,7 +248,7 @@ func execCase(c Case) (res vt.Result) {
 			mgr = cache.NewManager(c.CacheCap)
 		}
 	}
-	s, err := drive.Open(path, c.Schema, 1<<20, mgr)
+	s, err := drive.OpenNamed(path, c.Schema, 1<<20, mgr, c.Rename)
 	if err != nil {
 		return vt.Result{Err: err}
 	}
@@ -304,6 +283,7 @@ func execCase(c Case) (res vt.Result) {
 		s.Close()
 	}()
 	m := model.NewCollection(c.Schema, 1<<20)
+	m.SizeNames = c.Rename
 	for i, st := range c.Prefix {
 		if reason := m.Insert(st.Points); reason != "" {
 			return vt.Result{Err: fmt.Errorf("prefix %d rejected by the model: %s", i, reason)}
@@ -711,7 +691,7 @@ func execCase(c Case) (res vt.Result) {
 			if err := drive.CopyFile(path, cp); err != nil {
 				return err
 			}
-			cold, err := drive.Open(cp, c.Schema, 1<<20, cache.NewManager(-1))
+			cold, err := drive.OpenNamed(cp, c.Schema, 1<<20, cache.NewManager(-1), c.Rename)
 			if err != nil {
 				return err
 			}
